@@ -1,0 +1,11 @@
+//go:build !verif
+
+// Package verifhook provides named yield/observation points for runtime verification.
+// Without the build tag "verif" the points compile to nothing.
+package verifhook
+
+// Set is ignored without the verif build tag.
+func Set(fn func(point string)) {}
+
+// At does nothing without the verif build tag.
+func At(point string) {}
